@@ -6,12 +6,14 @@ CONSTANTS ExportOn, MaxAnn,  \* MaxAnn bounds the number of announcements in a b
 
 VARIABLE hist               \* the schedule so far (not in the VIEW)
 mvars == <<vars, hist>>
-view == <<now, has, cnt, active, pend, pc, obj, pulls, regs, late>>   \* without the outputs (out, lab) and hist
+view == <<now, has, cnt, active, pend, pc, obj, pulls, regs, late, capw>>   \* without the outputs (out, lab) and hist
 
 MInit == Init /\ hist = <<>>
-Anns == Cardinality({i \in 1..Len(hist) : hist[i].ev \in {"Announce", "AnnounceSplit"}})
+Anns == Cardinality({i \in 1..Len(hist) : hist[i].ev \in {"Announce", "AnnounceSplit", "AnnounceHold"}})
 MNext == /\ \/ (Anns < MaxAnn /\ \E p \in Peers, h \in Hashes : Announce(p, h))
             \/ (Anns < MaxAnn /\ \E p \in Peers, h \in Hashes : AnnounceSplit(p, h))
+            \/ (Anns < MaxAnn /\ \E p \in Peers, h \in Hashes : AnnounceHold(p, h))
+            \/ \E p \in Peers, h \in Hashes : AnnounceResume(p, h)
             \/ \E h \in Hashes : RegisterLate(h)
             \/ \E h \in Hashes : Arrive(h)
             \/ Tick
@@ -33,6 +35,11 @@ Kind == IF pc = "sleep" /\ (pend = <<>> \/ Head(pend) # obj) THEN "headchange"
         ELSE IF Len(pend') = Len(pend) /\ pend' # pend THEN "move"
         ELSE IF out' # <<>> THEN "emit" ELSE "remove"
 Export == IF ExportOn /\ Interesting /\ (Kind = "headchange" \/ RandomElement(1..SampleMod) = 1) THEN PrintT(ToJson([kind |-> Kind, sched |-> hist'])) ELSE TRUE
+\* cap family (MC_Tracker_cap.cfg): every resume of a pre-empted announcer, keyed by how many were waiting and the ticket
+NEv(e) == Cardinality({i \in 1..Len(hist') : hist'[i].ev = e})
+CapKind == "hold" \o ToString(NEv("AnnounceHold")) \o "resume" \o ToString(NEv("AnnounceResume")) \o (IF out' # <<>> THEN "ask" ELSE "queue")
+ExportCap == IF ExportOn /\ lab'.ev = "AnnounceResume" /\ RandomElement(1..SampleMod) = 1
+             THEN PrintT(ToJson([kind |-> CapKind, sched |-> hist'])) ELSE TRUE
 \* simulation export: every step (the runner keeps maximal walks)
 ExportAll == IF ExportOn THEN PrintT(ToJson([sched |-> hist'])) ELSE TRUE
 =============================================================================
